@@ -5,8 +5,7 @@ package dhash
 // Contracts for the deductive checks in /verif (comment-only; no code).
 // Property C12: double-hash encryption round-trips, is deterministic, fails closed.
 
-//@ spec func sha(b int) int
-//@ axiom sha_len [x]: blen(sha(x)) == 32
+// sha(b): SHA-256 of b (declared with the hash model in /verif/extern/crypto.spec)
 
 // key and nonce derivation, written from the property/doc: SHA-256 over a fixed prefix and the inputs
 //@ spec func keyOf(pass int) int = sha(bcat(content(deriveKeyPrefix), pass))
@@ -24,14 +23,15 @@ package dhash
 //@ func init
 //@   property C12
 
-// The loop over hash.Hash is not proved: the functional postcondition of
-// sha256Multiple is ASSUMED (listed in evidence); length, safety and
-// determinism are proved.
+// sha256Multiple hashes the concatenation of its payloads: the loop keeps "written so far == the
+// payloads handled so far, concatenated" (hash.Hash is a dependency: its Write/Sum contracts are assumed,
+// /verif/extern/crypto.spec).
 //@ func sha256Multiple
 //@   property C12
 //@   pure
-//@   ensures-assumed content(result) == bcat(content(dest), sha(catAll(payloads)))
-//@   ensures-assumed len(result) == len(dest) + 32
+//@   loop 1: invariant rangeindex < len(payloads) && g_hbuf(h) == catAll(payloads[0:rangeindex+1]) && g_hkind(h) == 1 && g_hsize(h) == 32 && h != nil
+//@   ensures content(result) == bcat(content(dest), sha(catAll(payloads)))
+//@   ensures len(result) == len(dest) + 32
 //@   ensures dest == nil ==> isfresh(result)
 
 //@ func SHA256
